@@ -566,6 +566,10 @@ int main(int argc, char **argv) {
         while (!vfork_tid) usleep(100);
         reply("ok %d %p", vfork_tid, (void *)&vfork_done);
       }
+    } else if (!strcmp(cmd, "newpgrp")) {
+      // own process group (not orphaned: the parent sits in another group of the same session), so that
+      // job-control stop signals (SIGTSTP ...) are not ignored
+      reply(setpgid(0, 0) == 0 ? "ok" : "err setpgid");
     } else if (!strcmp(cmd, "leaderexit")) {
       reply("ok");
       pthread_exit(NULL);
